@@ -86,7 +86,7 @@ fn run_suite<C: Suite>(ctx: &mut Ctx) {
                 continue;
             }
             let mut rng = ctx.rng(g);
-            let k = gen::random_scalar(&mut rng);
+            let k = gen::key_for(g, &mut rng); // every fourth case: an edge scalar
             let sk = sk_from_rs::<C>(&k);
             let pk = sk.public_key();
             let len = [0usize, 1, 33, 300, 4096, 32][rep % 6];
